@@ -64,13 +64,14 @@ def case_state(task):
             open(os.path.join(root, '.pc', 'applied-patches'), 'w').write(''.join(a + '\n' for a in applied))
         if not consistent:
             reason = 'applied-patches-longer-than-series' if (len(applied) > len(series) and tuple(applied[:len(series)]) == tuple(series)) else 'applied-patches-differs-from-series'
-        elif goal in NAMES and goal in applied:
-            reason = 'goal-already-applied'
-        elif goal == 'bogus' or (goal in NAMES and goal not in series):
-            reason = 'goal-not-in-series'
+        elif goal is not None and goal.split()[-1] in NAMES and goal.split()[-1] in applied:
+            reason = 'goal-already-applied' + ('-with-a' if goal.startswith('-a ') else '')   # a goal argument beats -a
+        elif goal is not None and (goal.split()[-1] == 'bogus' or (goal.split()[-1] in NAMES and goal.split()[-1] not in series)):
+            reason = 'goal-not-in-series' + ('-with-a' if goal.startswith('-a ') else '')
         else:
             reason = None
-        args = ([] if goal is None else [goal]) + (['-q'] if quiet else []) + ['--backup', 'never']
+        gargs = [] if goal is None else (goal.split() if goal.startswith('-a ') else [goal])
+        args = gargs + (['-q'] if quiet else []) + ['--backup', 'never']
         before = ws.snapshot(root, meta=True, skip=())
         o = ws.run_rq(root, args, threads=threads, trace=os.path.join(d, 'trace'))
         after = ws.snapshot(root, meta=True, skip=())
@@ -143,7 +144,7 @@ def run(tier, seed):
     texts = patch_texts(m0)
     series_set = [s for s in seqs(3, False) if s] + [('p1', 'p1')]
     applied_set = seqs(3, True)
-    goals_all = [None, '0', '1', '2', '4', '-a', 'p1', 'p2', 'p3', 'bogus']
+    goals_all = [None, '0', '1', '2', '4', '-a', 'p1', 'p2', 'p3', 'bogus', '-a bogus', '-a p1', '-a p2', '-a 1']
     tasks = []
     for s in series_set:
         for a in applied_set:
@@ -170,7 +171,7 @@ def run(tier, seed):
     acc2.finish('bad_patch_file_sweep')
     cov = res.coverage
     cov['rule'] = ('(1) all pairs (series, applied-patches): series = every duplicate-free sequence of 1..3 of the names p1,p2,p3 (+ one with a duplicate), applied-patches = every sequence of '
-                   '0..3 names incl. duplicates (prefix, longer, reordered, edited, duplicated) x goals {none,0,1,2,4,-a,p1,p2,p3,unknown name} (4 goals when the state is inconsistent) x threads {1,2} x '
+                   '0..3 names incl. duplicates (prefix, longer, reordered, edited, duplicated) x goals {none,0,1,2,4,-a,p1,p2,p3,unknown name, and -a combined with an unknown / a known name / a number} (4 goals when the state is inconsistent) x threads {1,2} x '
                    '{-q, default}; consistent prefixes are produced by a real earlier push. (2) a missing / truncated / malformed-header / binary / malformed-body / directory-instead-of-file patch at every position j '
                    'of the range with 0..2 patches applied before, threads {1,2}, both verbosities, --backup always. Oracle whenever the statement\'s precondition holds: exit class 1 (never a crash), '
                    'non-empty stderr, full snapshot (bytes, modes, inodes, mtimes, .pc, patches, series) identical. non-trivial = runs where a refusal is required')
